@@ -5,6 +5,18 @@ import IncrVerif.Proofs.GateF6
 open IncrVerif.Engine IncrVerif.Proofs IncrVerif.Proofs.Step
 namespace IncrVerif.Proofs.GateF
 
+theorem POk.map {α β} {R : State → State → Prop} [PreOrd R] {x : M α} (f : α → β) (hx : POk R x) : POk R (f <$> x) := by
+  rw [map_eq_pure_bind]; exact POk.bind hx (fun _ => POk.of_pres (Step.Pres.pure _))
+macro_rules | `(tactic| okleaf) => `(tactic| with_reducible apply POk.map)
+theorem POk.discard {α} {R : State → State → Prop} [PreOrd R] {x : M α} (hx : POk R x) : POk R (discard x) := by
+  unfold Functor.discard
+  rw [LawfulFunctor.map_const]
+  exact POk.map _ hx
+macro_rules | `(tactic| okleaf) => `(tactic| with_reducible apply POk.discard)
+theorem POk.withVarHandle {R : State → State → Prop} [PreOrd R] (v) {act : M Unit} (h : POk R act) : POk R (withVarHandle v act) := by
+  unfold Engine.withVarHandle; okpres; exact h; exact h
+macro_rules | `(tactic| okleaf) => `(tactic| with_reducible apply POk.withVarHandle)
+
 /-! ### node creation, var writes, effects -/
 set_option maxHeartbeats 2000000 in
 theorem POk.bumpCounter (ex : Nat → Prop) (f : Counters → Counters) : POk (RR ex) (bumpCounter f) := by
@@ -53,7 +65,6 @@ set_option maxHeartbeats 2000000 in
 theorem POk.disallowFutureUse (ex : Nat → Prop) (o) : POk (RR ex) (disallowFutureUse o) := by
   unfold Engine.disallowFutureUse; okpres
 o_leaf POk.disallowFutureUse
-/-- dropping a `Var` handle touches `vars` and `deadVars` only -/
 set_option maxHeartbeats 2000000 in
 theorem POk.dropVarHandle (ex : Nat → Prop) (v) : POk (RR ex) (dropVarHandle v) := by
   unfold Engine.dropVarHandle; okpres
